@@ -595,19 +595,37 @@ func (s *Session) Run(feed map[string]*ref.T, outputs []string) Outcome {
 	})
 }
 
-// ProtoFingerprint hashes the deterministic serialisation of the model's decoded
-// proto (hook VerifModelProto): node attributes, attribute tensors and the
-// initializer messages. Operators wrap protobuf slices into tensors, so an
-// in-place write on such a tensor shows up here.
+// ProtoFingerprint hashes the numeric payloads held by the model's decoded proto
+// (hook VerifModelProto): every initializer message and every node attribute
+// that carries a tensor or floats (Constant values, Scaler/LinearRegressor
+// coefficients). Operators wrap these protobuf slices into tensors without
+// copying, so an in-place write on such a tensor alters the model's weights and
+// shows up here. Integer attributes and names are not included.
 func ProtoFingerprint(m *gonnx.Model) uint64 {
-	b, err := proto.MarshalOptions{Deterministic: true}.Marshal(m.VerifModelProto())
-	if err != nil {
-		return 0
-	}
 	h := uint64(1469598103934665603)
-	for _, x := range b {
-		h ^= uint64(x)
+	mix := func(msg proto.Message) {
+		b, err := proto.MarshalOptions{Deterministic: true}.Marshal(msg)
+		if err != nil {
+			return
+		}
+		for _, x := range b {
+			h ^= uint64(x)
+			h *= 1099511628211
+		}
+		h ^= 0xff
 		h *= 1099511628211
+	}
+	g := m.VerifModelProto().GetGraph()
+	for _, t := range g.GetInitializer() {
+		mix(t)
+	}
+	for _, n := range g.GetNode() {
+		for _, a := range n.GetAttribute() {
+			switch a.GetType() {
+			case onnx.AttributeProto_TENSOR, onnx.AttributeProto_TENSORS, onnx.AttributeProto_FLOATS, onnx.AttributeProto_FLOAT:
+				mix(a)
+			}
+		}
 	}
 	return h
 }
